@@ -62,7 +62,13 @@ def program(rng, i, tier):
 
 
 def manykeys(rng, n):
-    return {'k%02d' % j: rng.choice([1, 'v', True, j, 'x%d' % j]) for j in rng.sample(range(60), n)}
+    m = {'k%02d' % j: rng.choice([1, 'v', True, j, 'x%d' % j]) for j in rng.sample(range(60), n)}
+    if rng.random() < 0.3:
+        # keys that differ only in letter case (an order that folds case would leave them tied)
+        for k in rng.sample(list(m.keys()), min(len(m), rng.randint(1, 3))):
+            m[k.upper()] = rng.choice([2, 'V', False])
+        m['v'], m['V'] = 'lower', 'upper'
+    return m
 
 
 def special(rng):
@@ -217,6 +223,11 @@ def check_case(ctx, case):
             with open(pth, 'w') as f:
                 f.write(ser.yaml_stream(docs_, frng, 'rich') if frng.random() < 0.7 else ser.yaml_stream(docs_, frng))
                 f.write('---\nanch: &a {v: 1, l: [1, 2]}\nuse1: *a\nuse2: {<<: *a, w: 2}\nuse3: [*a, *a]\n')
+            if gi % 3 == 0:
+                # a layer on top, so that the parent lookup by name runs inside the goroutines as well
+                pth = os.path.join(fd, 'g%d.top.json' % gi)
+                with open(pth, 'w') as f:
+                    f.write('{"toplayer": %d}' % gi)
             paths.append(pth)
         fcases = [[{'op': 'merge_layers', 'path': pth}, {'op': 'output', 'format': fmt}] for pth in paths]
         try:
@@ -301,6 +312,63 @@ def check_case(ctx, case):
                                top=top, siblings=['stem.%s.%s' % (sname, exts[k]) for k, sname in enumerate(subs)], events=[list(map(str, e)) for e in wev])
         res.ev('wildcard_parent_evaluations', len(wev))
         res.labels.add('wildcard-parents:' + wev[0][2])
+    # (5) the other tools are functions of their input files as well: bkld / bkli / bklr run several times on one pair of files
+    if case.get('i', 0) % 8 == 1:
+        from .. import edits
+        trng = random.Random(text + 't')
+        base = edits.base_tree(trng)
+        target = edits.edit(trng, base, set())
+        if trng.random() < 0.5:
+            base.update(manykeys(trng, 6))
+            target.update({k: (v if trng.random() < 0.5 else {'now': 'a map'}) for k, v in manykeys(trng, 6).items()})
+        td = ctx.casedir()
+        with open(os.path.join(td, 'base.json'), 'w') as f:
+            f.write(json.dumps(base))
+        with open(os.path.join(td, 'target.json'), 'w') as f:
+            f.write(json.dumps(target))
+        with open(os.path.join(td, 'req.json'), 'w') as f:
+            f.write(json.dumps(dict(base, need={'a': '$required', 'b': ['$required'], 'c': manykeys(trng, 3)}, zneed='$required')))
+        for tool, args in (('bkld', ['base.json', 'target.json']), ('bkli', ['base.json', 'target.json']), ('bklr', ['req.json'])):
+            seen = set()
+            for m in range(4):
+                r = cli([ctx.bin(tool), '-f', trng.choice(['json', 'json']) if False else 'json'] + args, cwd=td)
+                res.execs += 1
+                if crashed(r.rc, r.err):
+                    ctx.cleanup_case(td)
+                    return res.violate('crash', '%s died rc=%s' % (tool, r.rc), base=base, target=target)
+                seen.add((r.rc, r.out))
+            if len(seen) > 1:
+                ctx.cleanup_case(td)
+                return res.violate('determinism', '%s gave %d different results for the same files in 4 runs' % (tool, len(seen)), base=base, target=target,
+                                   outputs=sorted(o.decode('utf-8', 'replace')[:400] for _, o in seen))
+        ctx.cleanup_case(td)
+        res.ev('tool_repetitions', 12)
+    # (6) the result does not depend on what the process evaluated before: a lower layer changes its extension between two evaluations
+    if case.get('i', 0) % 8 == 2:
+        sd = ctx.casedir()
+        low = {'who': 'lower', 'keep': [1, 2], 'n': case.get('i', 0)}
+        with open(os.path.join(sd, 'svc.yaml'), 'w') as f:
+            f.write(ser.write('yaml', [low]))
+        with open(os.path.join(sd, 'svc.prod.json'), 'w') as f:
+            f.write('{"who": "upper"}')
+        top = os.path.join(sd, 'svc.prod.json')
+        r1 = ctx.call([{'op': 'merge_layers', 'path': top, 'parser': 0}, {'op': 'output', 'format': 'json', 'parser': 0}], res)
+        os.remove(os.path.join(sd, 'svc.yaml'))
+        with open(os.path.join(sd, 'svc.toml'), 'w') as f:
+            f.write(ser.write('toml', [low]))
+        r2 = ctx.call([{'op': 'merge_layers', 'path': top, 'parser': 1}, {'op': 'output', 'format': 'json', 'parser': 1}], res)
+        r3 = cli([ctx.bin('bkl'), '-f', 'json', 'svc.prod.json'], cwd=sd)
+        res.execs += 1
+        ctx.cleanup_case(sd)
+        if r1 is None or r2 is None:
+            return res.violate('crash', 'worker died (layer changed extension)')
+        e1, e2 = event(r1['results']), event(r2['results'])
+        e3 = ('ok' if r3.rc == 0 else 'fail', hashlib.sha256(r3.out).hexdigest() if r3.rc == 0 else None)
+        if not (e1 == e2 == e3):
+            return res.violate('determinism', 'the same layers give different results depending on what the process evaluated before '
+                               '(lower layer moved from svc.yaml to svc.toml between two evaluations)', first=str(e1), second=str(e2), fresh_process=str(e3),
+                               second_err=[x.get('err') for x in r2['results']])
+        res.ev('layer_moved_between_evaluations')
     kinds = set((e[2], e[3]) for e in events)
     if len(kinds) > 1:
         return res.violate('determinism', 'the same input gave %d different (status, output) results' % len(kinds), prog=prog, fmt=fmt,
